@@ -65,7 +65,7 @@ theorem TInv.congr {W : Colls} {seen : List (Req × Forest)} {cls cls' : Str →
 theorem TInv.set_redirects {W : Colls} {seen : List (Req × Forest)} {cls : Str → Str} {s : AggState}
     (h : TInv W seen cls s) (R : List (Str × Str)) :
     TInv W seen cls { s with agg := { s.agg with redirects := R } } :=
-  ⟨⟨⟨h.ainv.rinv.sound, h.ainv.rinv.closed⟩, h.ainv.cinv, h.ainv.nores⟩, h.imp, h.inj, h.keys, h.flat, h.sat, h.glb⟩
+  ⟨⟨⟨h.ainv.rinv.sound, h.ainv.rinv.closed, h.ainv.rinv.shape⟩, h.ainv.cinv, h.ainv.nores⟩, h.imp, h.inj, h.keys, h.flat, h.sat, h.glb⟩
 
 theorem sub_instance_refl (F : Forest) (h : F.namesDistinct = true) : sub (.instance F) (.instance F) = true :=
   sub_refl _ (by simpa [Tree.namesDistinct] using h)
@@ -201,7 +201,7 @@ theorem TInv.fresh (hT : TInv W seen cls s) {r : Req} {G : Forest} (hr : FlatReq
     rw [hgi, hne'] at g1
     obtain ⟨F0, h0⟩ := hT.imp n _ g1
     rw [(keep n F0 h0).2.det h1] at h0; exact h0
-  refine ⟨⟨⟨⟨hfs.rinv.sound, hfs.rinv.closed⟩, by rw [show (addImport s1 r.1 _).chk = s.chk from hfs.chk]; exact hT.ainv.cinv.ext hfs.ext,
+  refine ⟨⟨⟨⟨hfs.rinv.sound, hfs.rinv.closed, hfs.rinv.shape⟩, by rw [show (addImport s1 r.1 _).chk = s.chk from hfs.chk]; exact hT.ainv.cinv.ext hfs.ext,
       hfs.ext.resources.trans hT.ainv.nores⟩, ?_, ?_, ?_, ?_, ?_, ?_⟩, hfs.imports, hfs.redirects⟩
   · intro n k hn
     rw [hgi] at hn
@@ -308,7 +308,7 @@ theorem TInv.rename (hT : TInv W seen cls s) {name exName : Str} {m : ItemKind}
       · have a2' : (exName == n) = false := by simpa using a2
         rw [a2'] at h1
         exact .inr ⟨fun e' => a1 e'.symm, fun e' => a2 e'.symm, e, ti, by simpa using h1, h2, h3, h4⟩
-  refine ⟨⟨⟨hT.ainv.rinv.sound, hT.ainv.rinv.closed⟩, hT.ainv.cinv, hT.ainv.nores⟩, ?_, ?_, hT.keys, hT.flat, ?_, ?_⟩
+  refine ⟨⟨⟨hT.ainv.rinv.sound, hT.ainv.rinv.closed, hT.ainv.rinv.shape⟩, hT.ainv.cinv, hT.ainv.nores⟩, ?_, ?_, hT.keys, hT.flat, ?_, ?_⟩
   · intro n k hn
     rw [hgi] at hn
     by_cases a1 : name = n
